@@ -276,6 +276,24 @@ pub fn run_check<E: Engine>(engine: &E, cfg: &Cfg) -> Outcome {
         nworkers
     );
 
+    // watchdog: a run that never returns (endless loop in the system under test) must not hang the check
+    let done_flag = std::sync::Arc::new(std::sync::atomic::AtomicBool::new(false));
+    {
+        let done_flag = done_flag.clone();
+        let limit = max_secs + 300.0;
+        let prop = cfg.property.clone();
+        std::thread::spawn(move || {
+            let t0 = Instant::now();
+            while t0.elapsed().as_secs_f64() < limit {
+                std::thread::sleep(std::time::Duration::from_millis(500));
+                if done_flag.load(Ordering::SeqCst) {
+                    return;
+                }
+            }
+            eprintln!("HARNESS-ERROR: property {}: a simulated run did not terminate within {} s after the time cap", prop, 300);
+            std::process::exit(2);
+        });
+    }
     std::thread::scope(|scope| {
         for _ in 0..nworkers {
             scope.spawn(|| loop {
@@ -313,6 +331,7 @@ pub fn run_check<E: Engine>(engine: &E, cfg: &Cfg) -> Outcome {
         }
     });
 
+    done_flag.store(true, Ordering::SeqCst);
     let mut records = records.into_inner().unwrap();
     records.sort_by_key(|r| r.idx);
     // Only a contiguous prefix of run indices counts, so that the verdict does not depend on
